@@ -704,7 +704,7 @@ Proof.
     destruct (r_term (ref_of sc (ref_run [] ops)) i); apply N.eqb_eq in Hj; assumption.
 Qed.
 
-(* ---- known finding K1: with the K1-signature saves admitted the statement is false *)
+(* ---- known finding K1: once the K1-signature saves are let in, the statement is false *)
 
 Definition req_raft_valid (rs : list (N * rstate)) (p : N * wreq) : bool :=
   req_valid (ref_of (fst p) rs) (snd p).
